@@ -1,6 +1,7 @@
 import Clikit.Drv.Util
 import Clikit.Model.Output
 import Clikit.Model.SectionScopes
+import Clikit.Model.StyleSets
 /-!
 Driver entries of the C11 models:
 `c11.sgr` (a style through one of the three ways of supplying it - route `ctag`: passed for a single call while
@@ -27,6 +28,21 @@ def optStyleOf (j : Json) (k : String) : R (Option Style) :=
   match fOpt j k with
   | none => .ok none
   | some v => do return some (← styleOf v)
+
+/-- field `styles` of `c11.render`: absent / null = the formatter was built without a style set (`None`: the default
+one); `{base: "empty" | "default", remove: [tag, …], add: [style with tag, …]}` = it was built with the StyleSet object
+obtained from an empty `StyleSet()` / a `DefaultStyleSet()` by these `remove` and `add` calls -/
+def styleSetArg (j : Json) : R (Option (List Style)) :=
+  match fOpt j "styles" with
+  | none => .ok none
+  | some v => do
+    let base ← (match (← fStr v "base") with
+      | "empty" => pure []
+      | "default" => pure defaultStyleList
+      | b => throw s!"unknown style set base {b}" : R (List Style))
+    let removed ← (← fArr v "remove").toList.mapM asChars
+    let added ← (← fArr v "add").toList.mapM styleOf
+    return some (styleSetOf base removed added)
 
 /-- `{fg: code|null, bg: code|null, opts: [[code, name], …]}` -/
 def pastelOf (j : Json) : R PastelStyle := do
@@ -250,7 +266,7 @@ def handle (m : String) (j : Json) : Option (R Json) :=
       let tab ← tableOf j
       let style ← optStyleOf j "style"
       let mode ← fStr j "mode"
-      match defaultRegistry with
+      match formatterRegistry (← styleSetArg j) with
       | .error e => return jErr e
       | .ok reg =>
         let st ← stackOf reg j
